@@ -124,11 +124,13 @@ class Engine(object):
         self.current = None
         self.notes = []
         self.uf = {}
+        self.touched = set()
         self.loop_counter = {}
+        self.ghost_track = set(k for k, v in self.types.items() if v.get("$ghost_lastpos"))
         self.used_assumptions = set()
         self.feas_checks = 0
         self._solver = z3.Solver()
-        self._solver.set("timeout", 2000)
+        self._solver.set("timeout", 250)
         self.models = {}
         from . import models
         models.install(self)
@@ -157,6 +159,7 @@ class Engine(object):
         raise SpecError("unknown kind %r" % kind)
 
     def sort_of_kind(self, kind):
+        kind = kind.rstrip("?")
         if kind == "int":
             return IntS
         if kind == "real":
@@ -239,6 +242,9 @@ class Engine(object):
             res = self.ev(node.args[0], P, sctx)
             if len(res) == 1:
                 hyp = self.truth(res[0][1], P)
+                if z3.is_false(z3.simplify(hyp)):
+                    self.oblige(P, name, z3.BoolVal(True), kind)
+                    return
                 Q = P.clone()
                 Q.assume(hyp)
                 before = len(self.obligations)
@@ -283,19 +289,42 @@ class Engine(object):
             P.heap[key] = z3.Const("H_%s@0" % key, z3.ArraySort(RefS, sort))
         return P.heap[key]
 
-    def hread(self, P, ref, cls, field):
+    def hread(self, P, ref, cls, field, spec=True):
         kind = self.field_kind(cls, field)
         if kind.startswith("py"):
             raise Unsupported("python-side field %s.%s read through a symbolic reference" % (cls, field))
+        if kind.endswith("?"):
+            kind = kind[:-1]
+            if not spec:
+                flag = self.heap_array(P, "%s.%s$set" % (cls, field), BoolS)
+                self.oblige(P, "safe.unset.%s#%d" % (field, self.site()), z3.Select(flag, ref), "safe")
         arr = self.heap_array(P, "%s.%s" % (cls, field), self.sort_of_kind(kind))
         return self.wrap(z3.Select(arr, ref), kind)
 
     def hwrite(self, P, ref, cls, field, v):
         kind = self.field_kind(cls, field)
         key = "%s.%s" % (cls, field)
+        if kind.endswith("?"):
+            kind = kind[:-1]
+            fk = key + "$set"
+            flag = self.heap_array(P, fk, BoolS)
+            P.heap[fk] = z3.Store(flag, ref, z3.BoolVal(not isinstance(v, NoneT)))
+            P.written.add(fk)
+            if isinstance(v, NoneT):
+                return
         arr = self.heap_array(P, key, self.sort_of_kind(kind))
         P.heap[key] = z3.Store(arr, ref, self.unwrap(v, kind))
         P.written.add(key)
+
+    _type_ids = {}
+
+    def type_id(self, cls):
+        if cls not in self._type_ids:
+            self._type_ids[cls] = len(self._type_ids) + 1
+        return self._type_ids[cls]
+
+    def type_is(self, P, term, cls):
+        return z3.Select(self.heap_array(P, "$type", IntS), term) == self.type_id(cls)
 
     def alloc_arr(self, P):
         return self.heap_array(P, "$alloc", BoolS)
@@ -306,6 +335,8 @@ class Engine(object):
         P.assume(r != NULL)
         P.assume(z3.Not(z3.Select(a, r)))
         P.heap["$alloc"] = z3.Store(a, r, z3.BoolVal(True))
+        t = self.heap_array(P, "$type", IntS)
+        P.heap["$type"] = z3.Store(t, r, z3.IntVal(self.type_id(cls)))
         return r
 
     def assume_allocated(self, P, term):
@@ -318,20 +349,27 @@ class Engine(object):
         i = z3.Const("i!wf", IntS)
         for cls, fields in self.types.items():
             for f, kind in fields.items():
+                if f.startswith("$"):
+                    continue
                 if kind.startswith("ref:") or kind.startswith("slist:"):
                     arr = self.heap_array(P, "%s.%s" % (cls, f), RefS)
                     tgt = z3.Select(arr, o)
-                    P.assume(z3.ForAll([o], z3.Implies(z3.Select(a, o), z3.Or(tgt == NULL, z3.Select(a, tgt))),
+                    tcls = kind[4:] if kind.startswith("ref:") else "list"
+                    P.assume(z3.ForAll([o], z3.Implies(z3.And(z3.Select(a, o), self.type_is(P, o, cls)),
+                                                       z3.Or(tgt == NULL, z3.And(z3.Select(a, tgt), self.type_is(P, tgt, tcls)))),
                                        patterns=[z3.Select(arr, o)]))
         for ek in self.list_ekinds(P):
             if ek.startswith("ref:") or ek.startswith("slist:"):
                 el = self.heap_array(P, "list.elems.%s" % self.ekey(ek), z3.ArraySort(IntS, RefS))
-                ln = self.heap_array(P, "list.len", IntS)
+                ln = self.heap_array(P, self.lenkey(ek), IntS)
                 tgt = z3.Select(z3.Select(el, o), i)
+                tcls = ek.split(":", 1)[1] if ek.startswith("ref:") else "list"
                 P.assume(z3.ForAll([o, i], z3.Implies(z3.And(z3.Select(a, o), 0 <= i, i < z3.Select(ln, o)),
-                                                      z3.Or(tgt == NULL, z3.Select(a, tgt))), patterns=[tgt]))
-        ln = self.heap_array(P, "list.len", IntS)
-        P.assume(z3.ForAll([o], z3.Select(ln, o) >= 0, patterns=[z3.Select(ln, o)]))
+                                                      z3.Or(tgt == NULL, z3.And(z3.Select(a, tgt), self.type_is(P, tgt, tcls)))),
+                                   patterns=[tgt]))
+        for ek in self.list_ekinds(P):
+            ln = self.heap_array(P, self.lenkey(ek), IntS)
+            P.assume(z3.ForAll([o], z3.Select(ln, o) >= 0, patterns=[z3.Select(ln, o)]))
 
     def list_ekinds(self, P):
         out = set()
@@ -340,7 +378,7 @@ class Engine(object):
                 out.add(k[len("list.elems."):].replace("~", ":"))
         for cls, fields in self.types.items():
             for f, kind in fields.items():
-                if kind.startswith("slist:"):
+                if not f.startswith("$") and kind.startswith("slist:"):
                     out.add(kind[6:])
         return out
 
@@ -351,8 +389,11 @@ class Engine(object):
     def esort(self, ekind):
         return self.sort_of_kind(ekind)
 
+    def lenkey(self, ekind):
+        return "list.len.%s" % self.ekey(ekind)
+
     def l_len(self, P, lst):
-        return z3.Select(self.heap_array(P, "list.len", IntS), lst.t)
+        return z3.Select(self.heap_array(P, self.lenkey(lst.ekind), IntS), lst.t)
 
     def l_elems(self, P, lst):
         return z3.Select(self.heap_array(P, "list.elems.%s" % self.ekey(lst.ekind), z3.ArraySort(IntS, self.esort(lst.ekind))),
@@ -368,9 +409,10 @@ class Engine(object):
         P.written.add(key)
 
     def l_set_len(self, P, lst, n):
-        arr = self.heap_array(P, "list.len", IntS)
-        P.heap["list.len"] = z3.Store(arr, lst.t, n)
-        P.written.add("list.len")
+        key = self.lenkey(lst.ekind)
+        arr = self.heap_array(P, key, IntS)
+        P.heap[key] = z3.Store(arr, lst.t, n)
+        P.written.add(key)
 
     def new_slist(self, P, ekind, name="lst"):
         r = self.alloc(P, name, "list")
@@ -910,7 +952,7 @@ class Engine(object):
             if attr in t:
                 if not ctx.spec:
                     self.oblige(P, "safe.null.%s#%d" % (attr, self.site()), o.t != NULL, "safe")
-                return [(P, self.hread(P, o.t, o.cls, attr))]
+                return [(P, self.hread(P, o.t, o.cls, attr, spec=ctx.spec))]
             mod = self.class_module(o.cls)
             try:
                 m, fn = self.repo.method(mod, o.cls, attr)
@@ -1187,6 +1229,11 @@ class Engine(object):
             V = P.old.clone()
             st = dict(P.store)
             st.update(P.old.store)
+            for fr in ctx.frames:   # names bound after the snapshot (result, ghost bindings) stay visible inside old()
+                if fr.id in P.old.store and fr.id in P.store:
+                    d = dict(P.store[fr.id])
+                    d.update(P.old.store[fr.id])
+                    st[fr.id] = d
             V.store = st
             V.pc = P.pc
             V.old = None
@@ -1265,6 +1312,8 @@ class Engine(object):
     def call_func(self, P, ctx, f, args, kwargs):
         qual = f.qual
         con = self.contracts.get(qual) if qual else None
+        if ctx.spec:
+            con = None  # contract text calls real (pure) functions by inlining them; side-effect free by construction
         if con is not None and not con.get("inline", False) and qual not in self.func_stack[-1:]:
             if not (self.current == qual and P.depth == 0):
                 return self.call_contract(P, ctx, f, con, args, kwargs)
@@ -1273,6 +1322,7 @@ class Engine(object):
         if f.qual and self.func_stack.count(f.qual) >= 2:
             raise Unsupported("recursive function %s has no contract" % f.qual)
         env = self.bind_args(P, f, args, kwargs, ctx)
+        self.touched.add(ast.dump(f.node))
         fr = self.new_frame(P, env)
         c2 = Ctx(f.mod, f.frames + (fr,), ctx.spec, f.qual or f.name)
         self.func_stack.append(f.qual or f.name)
@@ -1308,11 +1358,33 @@ class Engine(object):
     def merge_pure(self, P, res):
         """Merge the outcomes of a pure call (spec mode) into one conditional value on the caller's path."""
         base = len(P.pc)
-        val = res[-1][1]
+
+        def lift(p, v):
+            # python-side lists become tuples of their contents (the merged value is a fresh list on P)
+            if isinstance(v, Handle) and v.kind == "list":
+                return ("list", tuple(lift(p, x) for x in p.get(v)))
+            return v
+
+        def merge(cond, a, b):
+            if isinstance(a, tuple) and isinstance(b, tuple) and a[0] == b[0] == "list":
+                if len(a[1]) != len(b[1]):
+                    raise Unsupported("cannot merge lists of different length from a pure call")
+                return ("list", tuple(merge(cond, x, y) for x, y in zip(a[1], b[1])))
+            return self.ite(cond, a, b)
+
+        def lower(v):
+            if isinstance(v, tuple) and v[0] == "list":
+                return P.new("list", tuple(lower(x) for x in v[1]))
+            return v
+
+        val = lift(res[-1][0], res[-1][1])
         for (p, v) in reversed(res[:-1]):
             cond = z3.And(*p.pc[base:]) if len(p.pc) > base else z3.BoolVal(True)
-            val = self.ite(cond, v, val)
-        return (P, val)
+            val = merge(cond, lift(p, v), val)
+        # facts the callee's models assumed on its paths (pow10 laws, quotient lemmas) hold on P under the path guard
+        alts = [z3.And(*p.pc[base:]) if len(p.pc) > base else z3.BoolVal(True) for (p, v) in res]
+        P.assume(z3.Or(*alts))
+        return (P, lower(val))
 
     def nonlocals_of(self, node):
         if isinstance(node, ast.Lambda):
@@ -1347,35 +1419,58 @@ class Engine(object):
         for key in con.get("modifies", []):
             self.havoc_heap(P, key)
         if con.get("modifies"):
-            self.wf_after_havoc(P, pre)
-        rk = con.get("returns")
-        if rk is None or rk == "none":
-            result = NONE
-        elif rk == "self":
-            result = args[0]
-        else:
-            result = self.sym("ret_" + f.name, rk)
-            if rk.startswith("ref:") or rk.startswith("slist:"):
-                pass
-        d = dict(P.get(fr))
-        d["result"] = result
-        P.put(fr, d)
-        saved_old = P.old
-        P.old = pre
-        for (nm, src) in self.named(con.get("ensures", [])):
-            for (p, v) in self.ev(self.parse(src), P, sctx):
-                P.assume(self.truth(v, P))
-        P.old = saved_old
+            self.wf_after_havoc(P, pre, con.get("allocates", ()))
+        alts = con.get("returns_cases") or [{"returns": con.get("returns"), "ensures": []}]
+        outs = []
+        for ai, alt in enumerate(alts):
+            Q = P.clone() if len(alts) > 1 else P
+            rk = alt.get("returns")
+            if rk is None or rk == "none":
+                result = NONE
+            elif rk == "self":
+                result = args[0]
+            elif callable(rk):
+                result = rk(self, Q)
+            else:
+                result = self.sym("ret_" + f.name, rk)
+                if isinstance(result, (Ref, SList)):
+                    self.assume_allocated(Q, result.t)
+                    if rk.startswith("slist:"):
+                        Q.assume(result.t != NULL)
+            d = dict(Q.get(fr))
+            d["result"] = result
+            Q.put(fr, d)
+            saved_old = Q.old
+            Q.old = pre
+            for (nm, src) in self.named(list(con.get("ensures", [])) + list(alt.get("ensures", []))):
+                for (p, v) in self.ev(self.parse(src), Q, sctx):
+                    Q.assume(self.truth(v, Q))
+            Q.old = saved_old
+            if len(alts) == 1 or self.feasible(Q):
+                outs.append((Q, result))
+        self.assume_used("contract:" + qual)
+        return outs
+        result = None
         self.assume_used("contract:" + qual)
         return [(P, result)]
 
-    def wf_after_havoc(self, P, pre):
-        # allocation only grows
+    def wf_after_havoc(self, P, pre, allocates=()):
+        """allocation only grows, and only by objects of the classes the contract says it may allocate"""
+        if not allocates:
+            self.wf_axioms(P)
+            return
         a0 = self.alloc_arr(pre)
         self.havoc_heap(P, "$alloc")
         a1 = self.alloc_arr(P)
         o = z3.Const("o!al", RefS)
         P.assume(z3.ForAll([o], z3.Implies(z3.Select(a0, o), z3.Select(a1, o)), patterns=[z3.Select(a1, o)]))
+        t0 = self.heap_array(pre, "$type", IntS)
+        self.havoc_heap(P, "$type")
+        t1 = self.heap_array(P, "$type", IntS)
+        P.assume(z3.ForAll([o], z3.Implies(z3.Select(a0, o), z3.Select(t1, o) == z3.Select(t0, o)), patterns=[z3.Select(t1, o)]))
+        ids = [self.type_id(c) for c in allocates]
+        P.assume(z3.ForAll([o], z3.Implies(z3.And(z3.Not(z3.Select(a0, o)), z3.Select(a1, o)),
+                                           z3.Or(*[z3.Select(t1, o) == i for i in ids])), patterns=[z3.Select(a1, o)]))
         self.wf_axioms(P)
 
     def havoc_heap(self, P, key):
@@ -1384,14 +1479,20 @@ class Engine(object):
                 self.alloc_arr(P)
             else:
                 # find the sort
-                if key == "list.len":
+                if key.startswith("list.len.") or key == "$type":
                     self.heap_array(P, key, IntS)
                 elif key.startswith("list.elems."):
                     ek = key[len("list.elems."):].replace("~", ":")
                     self.heap_array(P, key, z3.ArraySort(IntS, self.esort(ek)))
+                elif key.endswith("$set"):
+                    self.heap_array(P, key, BoolS)
+                elif key.endswith("$lastpos"):
+                    self.heap_array(P, key, IntS)
+                elif key.endswith("$lastlist"):
+                    self.heap_array(P, key, RefS)
                 else:
                     cls, fld = key.split(".", 1)
-                    self.heap_array(P, key, self.sort_of_kind(self.field_kind(cls, fld)))
+                    self.heap_array(P, key, self.sort_of_kind(self.field_kind(cls, fld).rstrip("?")))
         old = P.heap[key]
         P.heap[key] = self.fresh("H_" + key, old.sort())
         P.written.add(key)
@@ -1729,7 +1830,7 @@ class Engine(object):
         for key in spec.get("modifies", []):
             self.havoc_heap(H, key)
         if spec.get("modifies"):
-            self.wf_after_havoc(H, P)
+            self.wf_after_havoc(H, P, spec.get("allocates", ()))
         if kind == "for":
             iv = self.lookup(H, ctx, idxname)
             if step == 1:
@@ -1778,7 +1879,7 @@ class Engine(object):
                         if kind == "for":
                             iv = self.lookup(r, ctx, idxname)
                             self.assign_name(r, ctx, idxname, Num(iv.t + step, True), ())
-                        undeclared = {w for w in r.written if not w.startswith("py")} - set(spec.get("modifies", []))
+                        undeclared = {w for w in r.written if not w.startswith("py") and w not in ("$alloc", "$type")} - set(spec.get("modifies", []))
                         if undeclared:
                             raise SpecError("loop %d of %s writes heap fields %s not in its modifies clause"
                                             % (k, fn, sorted(undeclared)))
@@ -1804,6 +1905,7 @@ class Engine(object):
         if isinstance(cur, Ref):
             r = Ref(self.fresh(name, RefS), cur.cls)
             self.assume_allocated(P, r.t)
+            P.assume(z3.Or(r.t == NULL, self.type_is(P, r.t, cur.cls)))
             return r
         if isinstance(cur, SList):
             r = SList(self.fresh(name, RefS), cur.ekind)
